@@ -9,6 +9,8 @@ import ExoModel.Wire
 import ExoModel.RwCheck
 import ExoModel.AlphaEq
 import ExoModel.RwCheckStorage
+import ExoModel.RwCheckData
+import ExoModel.RwCheckCalls
 import ExoModel.Wf
 open Lean Exo Exo.Wire
 
@@ -116,7 +118,10 @@ def handle (line : String) : Json :=
           let flag ← Wire.bool (← fld j "flag")
           let storage := ["lift_alloc", "sink_alloc", "delete_buffer", "delete_pass", "expand_dim", "bind_expr",
                           "divide_dim", "mult_dim", "rearrange_dim", "resize_dim", "unroll_buffer"]
-          match (if storage.contains name then Exo.Rw.checkStorage name path k flag before.body after.body
+          let dataOps := ["split_write", "merge_writes", "fold_into_reduce", "lift_reduce_constant", "inline_assign", "rewrite_expr"]
+          match (if ["inline", "extract_subproc"].contains name then Exo.Rw.checkCalls name path k flag before.body after.body
+                 else if dataOps.contains name then Exo.Rw.checkData name path k flag before.body after.body
+                 else if storage.contains name then Exo.Rw.checkStorage name path k flag before.body after.body
                  else Exo.Rw.check' name path k flag before.body after.body) with
           | .ok _ => pure (Json.mkObj [("match", .bool true)])
           | .error e => pure (Json.mkObj [("match", .bool false), ("why", .str e)])
